@@ -11,6 +11,7 @@ import DeapModel.Lemmas.C07Nsga3
 import DeapModel.Lemmas.C07Refs
 import DeapModel.Lemmas.C07Assoc
 import DeapModel.Lemmas.C07Select
+import DeapModel.Lemmas.C07Norm
 
 set_option linter.unusedSectionVars false
 set_option linter.unusedVariables false
@@ -269,6 +270,110 @@ theorem associate_argmin (refs : List (List ℝ)) (best intercepts f : List ℝ)
   associate1_argmin refs best intercepts f hne
 
 example : [[(1 : ℝ), 0], [0, 1]] ≠ [] := List.cons_ne_nil _ _
+
+/-! ## normalisation (`selNSGA3` 546-557, `find_extreme_points` 577-593, `find_intercepts`
+596-617), over ℝ; `numpy.linalg.solve` is the parameter `solve` -/
+
+/-- the ideal point is the componentwise minimum of the population (and of the remembered ideal
+point in the memory variant): a lower bound that is attained. -/
+theorem ideal_min (r0 : List ℝ) (rs : List (List ℝ)) (hrect : ∀ r ∈ rs, r.length = r0.length) :
+    ((idealPoint (r0 :: rs) none).length = r0.length ∧
+      ∀ j (hj : j < r0.length) (h : j < (idealPoint (r0 :: rs) none).length),
+        (∀ r ∈ r0 :: rs, ∀ hr : j < r.length, (idealPoint (r0 :: rs) none)[j] ≤ r[j]) ∧
+        (∃ r ∈ r0 :: rs, ∃ hr : j < r.length, (idealPoint (r0 :: rs) none)[j] = r[j])) ∧
+    (∀ m : List ℝ, m.length = r0.length →
+      (idealPoint (r0 :: rs) (some m)).length = m.length ∧
+      ∀ j (hj : j < m.length) (h : j < (idealPoint (r0 :: rs) (some m)).length),
+        (idealPoint (r0 :: rs) (some m))[j] ≤ m[j] ∧
+        (∀ r ∈ r0 :: rs, ∀ hr : j < r.length, (idealPoint (r0 :: rs) (some m))[j] ≤ r[j]) ∧
+        ((idealPoint (r0 :: rs) (some m))[j] = m[j] ∨
+          ∃ r ∈ r0 :: rs, ∃ hr : j < r.length, (idealPoint (r0 :: rs) (some m))[j] = r[j])) := by
+  refine ⟨idealPoint_nomem r0 rs hrect, fun m hm => idealPoint_mem (r0 :: rs) m ?_⟩
+  intro r hr
+  rcases List.mem_cons.1 hr with h | h
+  · rw [h, hm]
+  · rw [hrect r h, hm]
+
+example : ∀ r ∈ [[(2 : ℝ), 7]], r.length = [(4 : ℝ), 1].length := by simp
+
+/-- the extreme point of axis `j` is the first row (population, then remembered extreme points)
+minimising the achievement scalarising function `max_m (f_m - ideal_m) · (1 if m = j else 1e6)`. -/
+theorem extreme_argmin (fits : List (List ℝ)) (best : List ℝ) (ext : Option (List (List ℝ)))
+    (hne : extRows fits ext ≠ []) (j : Nat) (hj : j < best.length) :
+    ∃ i, i < (extRows fits ext).length ∧
+      (findExtremePoints fits best ext).getD j [] = (extRows fits ext).getD i [] ∧
+      (∀ r ∈ extRows fits ext,
+        asf best.length j (List.zipWith (· - ·) ((extRows fits ext).getD i []) best) ≤
+          asf best.length j (List.zipWith (· - ·) r best)) ∧
+      (∀ i', i' < i →
+        asf best.length j (List.zipWith (· - ·) ((extRows fits ext).getD i []) best) <
+          asf best.length j (List.zipWith (· - ·) ((extRows fits ext).getD i' []) best)) :=
+  findExtremePoints_spec fits best ext hne j hj
+
+example : extRows [[(1 : ℝ), 2]] none ≠ [] ∧ 1 < [(0 : ℝ), 0].length := ⟨List.cons_ne_nil _ _, by simp⟩
+
+/-- `find_intercepts` answers the worst point (singular system), the front's worst point (a zero
+component or a failed acceptance test), or `1/x` for a solution that passed the acceptance test. -/
+theorem intercepts_cases (solve : List (List ℝ) → List ℝ → Option (List ℝ))
+    (extreme : List (List ℝ)) (best worst frontWorst : List ℝ) :
+    let A := extreme.map (fun r => List.zipWith (· - ·) r best)
+    let b := List.replicate best.length (RealLike.ofNat 1 : ℝ)
+    (solve A b = none ∧ findIntercepts solve extreme best worst frontWorst = worst) ∨
+    (findIntercepts solve extreme best worst frontWorst = frontWorst) ∨
+    (∃ x, solve A b = some x ∧ x.any isZero = false ∧ acceptIntercepts A x best worst = true ∧
+      findIntercepts solve extreme best worst frontWorst = x.map (fun v => RealLike.ofNat 1 / v)) :=
+  findIntercepts_cases solve extreme best worst frontWorst
+
+/-- accepted hyperplane intercepts: the contract `A·x = 1` holds up to `allclose`, every intercept
+exceeds `1e-6` (so is positive), and ideal + intercept stays within the worst point. -/
+theorem intercepts_pos (A : List (List ℝ)) (x best worst : List ℝ)
+    (h : acceptIntercepts A x best worst = true) :
+    (∀ row ∈ A, |dot row x - 1| ≤ 1 / 100000000 + 1 / 100000 * |(1 : ℝ)|) ∧
+    (∀ v ∈ x, (1 : ℝ) / 1000000 < 1 / v) ∧
+    (∀ p ∈ List.zip (List.zipWith (· + ·) (x.map (fun v => (1 : ℝ) / v)) best) worst, p.1 ≤ p.2) :=
+  acceptIntercepts_spec A x best worst h
+
+example : acceptIntercepts [[(3 : ℝ), 0], [0, 3]] [1 / 3, 1 / 3] [5, 5] [8, 8] = true := accept_example
+
+/-- FULL statement asked for ("the normalisation never divides by a non-positive number"): not
+provable — see `norm_denominator_pos_refuted`. -/
+def norm_denominator_pos_Statement : Prop :=
+  ∀ (A : List (List ℝ)) (x best worst : List ℝ), acceptIntercepts A x best worst = true →
+    ∀ d ∈ List.zipWith (fun i b => i - b + (eps : ℝ)) (x.map (fun v => (1 : ℝ) / v)) best, 0 < d
+
+/-- what holds: (1) whenever the intercepts are componentwise ≥ the ideal point — which is the case
+for both fallback answers computed by `selNSGA3` (`fallback_ge_ideal`) — every denominator of line
+624 is ≥ eps > 0; (2) for accepted hyperplane intercepts the denominators are positive under the
+extra hypothesis that the ideal point is componentwise ≤ 0. -/
+theorem norm_denominator_pos_partial :
+    (∀ (intercepts best : List ℝ), (∀ p ∈ List.zip intercepts best, p.2 ≤ p.1) →
+      ∀ d ∈ List.zipWith (fun i b => i - b + (eps : ℝ)) intercepts best, (eps : ℝ) ≤ d ∧ 0 < d) ∧
+    (∀ (A : List (List ℝ)) (x best worst : List ℝ), acceptIntercepts A x best worst = true →
+      (∀ b ∈ best, b ≤ 0) →
+      ∀ d ∈ List.zipWith (fun i b => i - b + (eps : ℝ)) (x.map (fun v => (1 : ℝ) / v)) best, 0 < d) :=
+  ⟨denominator_pos_of_ge, denominator_pos_of_accept⟩
+
+example : ∀ p ∈ List.zip [(8 : ℝ), 9] [5, 4], p.2 ≤ p.1 := by
+  intro p hp; simp at hp; rcases hp with h | h <;> (rw [h]; norm_num)
+
+/-- the two fallback answers of the model's own normalisation are componentwise ≥ its ideal point. -/
+theorem fallback_ge_ideal (r0 : List ℝ) (rs : List (List ℝ)) (hrect : ∀ r ∈ rs, r.length = r0.length) :
+    (∀ p ∈ List.zip (colMax0 (r0 :: rs)) (idealPoint (r0 :: rs) none), p.2 ≤ p.1) ∧
+    (∀ mb mw : List ℝ, mb.length = r0.length → mw.length = r0.length →
+      (∀ p ∈ List.zip (colMax0 (r0 :: rs)) (idealPoint (r0 :: rs) (some mb)), p.2 ≤ p.1) ∧
+      (∀ p ∈ List.zip (worstPoint (r0 :: rs) (some mw)) (idealPoint (r0 :: rs) (some mb)), p.2 ≤ p.1)) :=
+  ⟨fallback_ge_ideal_nomem r0 rs hrect, fun mb mw hb hw => fallback_ge_ideal_mem r0 rs mb mw hrect hb hw⟩
+
+/-- the code as written violates the full statement: the hyperplane intercepts are relative to the
+ideal point, yet line 624 subtracts the ideal point again.  Ideal (5,5), extreme points (8,5),(5,8),
+worst (8,8): accepted intercepts (3,3), denominators `3 - 5 + eps < 0`. -/
+theorem norm_denominator_pos_refuted : ¬ norm_denominator_pos_Statement := by
+  intro h
+  have d0 := h [[3, 0], [0, 3]] [1 / 3, 1 / 3] [5, 5] [8, 8] accept_example
+    ((1 : ℝ) / (1 / 3) - 5 + eps) (by simp)
+  have he : (eps : ℝ) < 1 := by unfold eps; rw [RealLike.real_ofRatio]; norm_num
+  norm_num at d0
+  linarith
 
 /-! ## reference points (`uniform_reference_points`, emo.py:677-698) -/
 
